@@ -57,6 +57,7 @@ const (
 	FeatHdrDigits   = "header-digits" // running header containing a constant number
 	FeatMixedSize   = "mixed-size"    // pages of different sizes
 	FeatMargShadow  = "margin-shadow" // the one-page marginal text is painted twice, 1-2 pt apart (drop shadow / fake bold)
+	FeatHdrBandEdge = "header-band-edge" // the running header's top edge is inside the top band, its baseline is not
 )
 
 // DocOpts tunes GenDoc.
@@ -143,6 +144,13 @@ func GenDoc(t *rapid.T, o DocOpts) Doc {
 	// Two rows per band, 14 pt apart, both well inside the band and clear of the 72..80 pt no-man's-land.
 	topRow := func(r int) float64 { return H - float64(24+14*r) - hs } // top edge 24 / 38 pt below the page top
 	botRow := func(r int) float64 { return float64(44 - 14*r) }        // baseline 44 / 30 pt above the page bottom
+	// the inner edge of the top band: "top of the fragment less than 72 pt below the page top" also holds for a
+	// header whose baseline lies deeper than that (jitter at most 1 pt: k >= 3 keeps the top edge inside)
+	hdrAtEdge := d.Header != "none" && want(FeatHdrBandEdge, pct("headerAtBandEdge", 20))
+	hdrEdgeK := float64(rapid.IntRange(3, 7).Draw(t, "headerEdgeK"))
+	if hdrAtEdge {
+		feat[FeatHdrBandEdge] = true
+	}
 	hdrAlign := rapid.SampledFrom([]string{"left", "center", "right"}).Draw(t, "headerAlign")
 	ftrAlign := rapid.SampledFrom([]string{"left", "center"}).Draw(t, "footerAlign")
 	if d.PageNo != "none" {
@@ -298,7 +306,11 @@ func GenDoc(t *rapid.T, o DocOpts) Doc {
 				ws = append(append([]string{}, ws...), strconv.Itoa(pnStart+i))
 			}
 			if d.Header != "skipfirst" || i > 0 {
-				madd(ws, d.HeaderForm, al, topRow(0)+jit, RoleHeader, jit)
+				hy := topRow(0)
+				if hdrAtEdge {
+					hy = H - (Margin - hdrEdgeK) - hs // top edge Margin-k below the page top, baseline k closer to the body
+				}
+				madd(ws, d.HeaderForm, al, hy+jit, RoleHeader, jit)
 			}
 		}
 		if d.Footer != "none" {
